@@ -260,6 +260,11 @@ func drawPlan(t *rapid.T, m *model.Packet) []api.Step {
 		order = rapid.SliceOfN(rapid.IntRange(0, 40), 1, 64).Draw(t, "plan.order")
 		skip = rapid.SliceOfN(rapid.Bool(), n, n).Draw(t, "plan.skipzero")
 		plan := api.Plan(m, order, skip)
+		if len(plan) > 0 && rapid.IntRange(0, 3).Draw(t, "plan.copy") == 0 {
+			// the packet value is copied at some point and the construction
+			// goes on with the copy (template plus per-client fields)
+			plan[rapid.IntRange(0, len(plan)-1).Draw(t, "plan.copyat")].Copy = true
+		}
 		if mode == 3 && len(plan) > 0 {
 			// read-only operations on the half-built packet between setter
 			// calls (String, WriteTo, Dump, WellFormed)
@@ -459,6 +464,11 @@ type buildCase struct {
 	Plan     []api.Step `json:"plan"`
 	DecoyGob string     `json:"decoy_gob,omitempty"`
 	Prelude  []preOp    `json:"prelude,omitempty"`
+	// Forward > 0 (C01): after the round trip the decoded packet is changed
+	// through one public setter or adder (which one: Forward) and written
+	// and read again - a packet obtained from ReadPacket and a setter is a
+	// packet built through the public API like any other.
+	Forward int `json:"forward,omitempty"`
 }
 
 func runPrelude(ops []preOp) {
@@ -549,6 +559,9 @@ func drawBuildCase(t *rapid.T, m *model.Packet, typ uint8) buildCase {
 		})
 	}
 	c.Prelude = drawPrelude(t)
+	if rapid.IntRange(0, 2).Draw(t, "forward") == 0 {
+		c.Forward = rapid.IntRange(1, 40).Draw(t, "forwardpick")
+	}
 	return c
 }
 
